@@ -220,6 +220,46 @@ func unicodeClassGrammar(r *rand.Rand, pkg string, av pvpeg.Avoid) *past.Grammar
 	return g
 }
 
+// addSharedCodeLeaf adds a reference-free rule consisting of a code predicate and refers to it from the entry rule
+// AND from a recursive rule: under -optimize-grammar the leaf is inlined at both places while both rules survive
+// (the recursive one cannot be inlined), so one source code block ends up in two rules and needs a method in each.
+func addSharedCodeLeaf(r *rand.Rand, g *past.Grammar) {
+	for _, rl := range g.Rules {
+		if rl.Name.Val == "GuardQ" || rl.Name.Val == "NestQ" {
+			return
+		}
+	}
+	id := func(n string) *past.Identifier { return past.NewIdentifier(past.Pos{}, n) }
+	ref := func(n string) *past.RuleRefExpr {
+		e := past.NewRuleRefExpr(past.Pos{})
+		e.Name = id(n)
+		return e
+	}
+	lit := func(s string) *past.LitMatcher { return past.NewLitMatcher(past.Pos{}, s) }
+	guard := past.NewRule(past.Pos{}, id("GuardQ"))
+	if r.Intn(2) == 0 {
+		p := past.NewAndCodeExpr(past.Pos{})
+		p.Code = past.NewCodeBlock(past.Pos{}, "{ return true, nil }")
+		guard.Expr = p
+	} else {
+		p := past.NewNotCodeExpr(past.Pos{})
+		p.Code = past.NewCodeBlock(past.Pos{}, "{ return false, nil }")
+		guard.Expr = p
+	}
+	nest := past.NewRule(past.Pos{}, id("NestQ"))
+	inner := past.NewSeqExpr(past.Pos{})
+	inner.Exprs = []past.Expression{ref("GuardQ"), lit("("), ref("NestQ"), lit(")")}
+	ch := past.NewChoiceExpr(past.Pos{})
+	ch.Alternatives = []past.Expression{inner, lit("q")}
+	nest.Expr = ch
+	opt := past.NewZeroOrOneExpr(past.Pos{})
+	opt.Expr = ref("NestQ")
+	seq := past.NewSeqExpr(past.Pos{})
+	seq.Exprs = []past.Expression{ref("GuardQ"), g.Rules[0].Expr, opt}
+	g.Rules[0].Expr = seq
+	g.Rules = append(g.Rules, guard, nest)
+}
+
 func build(seed int64, i int, av pvpeg.Avoid, recv string) (*past.Grammar, string, []string, pvpeg.Cfg) {
 	r := pvpeg.SubRand(seed, 0, i)
 	cfg := pvpeg.Cfg{WellFormed: true, Compilable: true, UniqueLabels: true, Avoid: av, Recv: recv, Pkg: fmt.Sprintf("pg%04d", i)}
@@ -252,6 +292,9 @@ func build(seed int64, i int, av pvpeg.Avoid, recv string) (*past.Grammar, strin
 		}
 	}
 	g := pvpeg.Gen(r, cfg)
+	if r.Intn(4) == 0 && !cfg.LeftRec {
+		addSharedCodeLeaf(r, g)
+	}
 	st := pvpeg.Styles[r.Intn(len(pvpeg.Styles))]
 	st.Avoid = av
 	text := pvpeg.Print(g, r, st)
